@@ -93,12 +93,10 @@ pub fn stub_file_read(_r: &mut std::fs::File, buf: &mut [u8]) -> std::io::Result
 /// BufReader with a non-zero capacity (as created by Log::read_next) refills through read_buf.
 pub fn stub_file_read_buf(_r: &mut std::fs::File, mut cursor: std::io::BorrowedCursor<'_, u8>) -> std::io::Result<()> {
 	unsafe {
-		let mut n = cursor.capacity();
-		if n > LEN - POS { n = LEN - POS; }
-		if n > LOG_BYTES { n = LOG_BYTES; }
-		let mut k = 0;
-		while k < LOG_BYTES { if k < n { cursor.append(&[BUF[POS + k]]); } k += 1; }
-		POS += n;
+		// harnesses using this stub keep LEN and POS concrete: one concrete-size copy (content stays symbolic)
+		assert!(cursor.capacity() >= LEN - POS, "harness bound: reader buffer holds the whole file");
+		cursor.append(&BUF[POS..LEN]);
+		POS = LEN;
 	}
 	Ok(())
 }
@@ -380,17 +378,9 @@ fn c12_o1_flush_one_syncs_before_handover() {
 
 /// C12.O2: `read_next` takes log files only from the reader queue (files that went through flush_one) or the
 /// already active reader; it never opens the appending file. With O1 this gives "applied only after synced".
-crate::verif_env! {
-#[kani::proof]
-#[kani::unwind(50)]
-#[kani::stub(<std::fs::File as std::io::Read>::read, stub_file_read)]
-#[kani::stub(<std::fs::File as std::io::Read>::read_buf, stub_file_read_buf)]
-#[kani::stub(<std::fs::File as std::io::Seek>::seek, stub_file_seek)]
-#[kani::stub(crc32fast::Hasher::internal_new_specialized, crate::verif_common::no_specialized_crc)]
-#[kani::stub(<std::os::fd::OwnedFd as std::ops::Drop>::drop, crate::verif_common::fd_drop_noop)]
-fn c12_o2_read_next_only_from_read_queue() {
+fn read_next_case(file_len: usize) {
 	fev_reset();
-	unsafe { BUF = kani::any(); LEN = kani::any(); kani::assume(LEN <= 12); POS = 0; }
+	unsafe { BUF = kani::any(); LEN = file_len; POS = 0; }
 	let has_appending: bool = kani::any();
 	let queued: bool = kani::any();
 	let log = mk_log(true, if has_appending { Some(Appending { id: 9, file: std::io::BufWriter::with_capacity(0, vc::raw_file(5)), size: 100 }) } else { None });
@@ -403,17 +393,35 @@ fn c12_o2_read_next_only_from_read_queue() {
 			assert!(reader.reading.as_ref().map(|x| x.id) == Some(4), "C12.O2 the reader reads the queued file");
 			assert!(unsafe { BUF[0] } == 1, "C12.O2 a record starts with BeginRecord");
 		},
-		Ok(None) => {},
+		Ok(None) => {
+			// an exhausted file goes to cleanup, never back to the read queue
+			if queued { assert!(log.cleanup_queue.read().len() == 1 && log.read_queue.read().len() == 0, "C12.O2 exhausted log file is queued for cleanup"); }
+		},
 		Err(_) => { assert!(queued, "C12.O2 errors only from reading a queued file"); },
 	}
 	assert!(log.appending.read().is_some() == has_appending, "C12.O2 the appending file is never touched by the reader");
 	if has_appending { assert!(log.appending.read().as_ref().map(|a| a.id) == Some(9), "C12.O2 appending unchanged"); }
-	kani::cover!(matches!(r, Ok(Some(_))));
-	kani::cover!(matches!(r, Ok(None)) && queued);
+	if file_len > 0 { kani::cover!(matches!(r, Ok(Some(_)))); } else { kani::cover!(matches!(r, Ok(None)) && queued); }
 	std::mem::forget(r);
 	std::mem::forget(log);
 }
+
+macro_rules! c12_o2 {
+	($name:ident, $len:expr) => {
+		crate::verif_env! {
+			#[kani::proof]
+			#[kani::unwind(50)]
+			#[kani::stub(<std::fs::File as std::io::Read>::read, stub_file_read)]
+			#[kani::stub(<std::fs::File as std::io::Read>::read_buf, stub_file_read_buf)]
+			#[kani::stub(<std::fs::File as std::io::Seek>::seek, stub_file_seek)]
+			#[kani::stub(crc32fast::Hasher::internal_new_specialized, crate::verif_common::no_specialized_crc)]
+			#[kani::stub(<std::os::fd::OwnedFd as std::ops::Drop>::drop, crate::verif_common::fd_drop_noop)]
+			fn $name() { read_next_case($len) }
+		}
+	};
 }
+c12_o2!(c12_o2_read_next_only_from_read_queue, 12);
+c12_o2!(c12_o2_read_next_exhausted_file, 0);
 
 /// C12.O3a: `Log::clean_logs` truncates only files taken from the cleanup queue, in order, each truncation
 /// (rewind, set_len(0)) followed by sync_all before the file can enter the pool; a failure stops before the pool.
